@@ -125,7 +125,7 @@ B = [
  ("C19", "proxy-accepts-any-token", "contracts/proxy/contract.go",
   "\tif !caller.Equals(gas.Hash) {\n\t\tcommon.AbortWithMessage(\"proxy contract accepts GAS only\")\n\t}\n", "\tif !caller.Equals(gas.Hash) && amount > 10 {\n\t\tcommon.AbortWithMessage(\"proxy contract accepts GAS only\")\n\t}\n"),
  ("C19", "withdraw-fee-first-alphabet-only", "contracts/neofs/contract.go",
-  "\t\tfor _, node := range alphabet {\n\t\t\tprocessingAddr := contract.CreateStandardAccount(node)\n", "\t\tfor _, node := range alphabet[:1+len(alphabet)/2] {\n\t\t\tprocessingAddr := contract.CreateStandardAccount(node)\n"),
+  "\t\tfor _, node := range alphabet {\n\t\t\tprocessingAddr := contract.CreateStandardAccount(node)\n", "\t\tfor i, node := range alphabet {\n\t\t\tif i > len(alphabet)/2 {\n\t\t\t\tcontinue\n\t\t\t}\n\t\t\tprocessingAddr := contract.CreateStandardAccount(node)\n"),
  # ---- C20 stores
  ("C20", "estimation-cleanup-boundary", "contracts/container/contract.go",
   "\t\t\tif !isUpdate && epoch-oldEpoch > cst.CleanupDelta {", "\t\t\tif !isUpdate && epoch-oldEpoch >= cst.CleanupDelta {"),
